@@ -206,20 +206,24 @@ func (this *badgerWAL) Save(hardState raftpb.HardState, entries []raftpb.Entry, 
 	batch := this.db.NewWriteBatch()
 	defer batch.Cancel()
 
+	if !etcdRaft.IsEmptySnap(snapshot) {
+		// Delete the log first. The snapshot's dummy entry and the entries that
+		// follow it may reuse keys of the old log and the last operation on a key
+		// in a batch wins.
+		if err := this.deleteEntriesFromIndex(batch, 0); err != nil {
+			return err
+		}
+		if err := this.writeSnapshot(batch, snapshot); err != nil {
+			return err
+		}
+		// The log now ends at the snapshot
+		this.cache.Store(cacheLastIndexKey, snapshot.Metadata.Index)
+	}
 	if err := this.writeEntries(batch, entries); err != nil {
 		return err
 	}
 	if err := this.writeHardState(batch, hardState); err != nil {
 		return err
-	}
-	if !etcdRaft.IsEmptySnap(snapshot) {
-		if err := this.writeSnapshot(batch, snapshot); err != nil {
-			return err
-		}
-		// Delete the log
-		if err := this.deleteEntriesFromIndex(batch, 0); err != nil {
-			return err
-		}
 	}
 
 	return batch.Flush()
